@@ -4,6 +4,7 @@ import (
 	"context"
 	"encoding/json"
 	"fmt"
+	"reflect"
 	"runtime"
 	"strings"
 	"sync"
@@ -655,7 +656,7 @@ func TestC18Concurrent(t *testing.T) {
 		}
 		defer c.Close()
 		for i := 1; i <= 3; i++ {
-			if _, err := kit.TransactOps(bg, w, writer, []kit.Op{{Op: "insert", Table: "T0", UUID: kit.MkUUID(i), Row: kit.Row{"name": kit.Scalar(kit.Str(fmt.Sprintf("r%d", i))), "a": kit.Scalar(kit.Int(0)), "b": kit.Scalar(kit.Int(0))}}}); err != nil {
+			if _, err := kit.TransactOps(bg, w, writer, []kit.Op{{Op: "insert", Table: "T0", UUID: kit.MkUUID(i), Row: kit.Row{"name": kit.Scalar(kit.Str(fmt.Sprintf("r%d", i))), "a": kit.Scalar(kit.Int(0)), "b": kit.Scalar(kit.Int(0)), "tags": kit.SetOf(kit.Str("x"), kit.Str("y"))}}}); err != nil {
 				t.Fatal(err)
 			}
 		}
@@ -665,7 +666,7 @@ func TestC18Concurrent(t *testing.T) {
 		}
 		var t1Monitored int32
 		ng := rapid.IntRange(2, 4).Draw(t, "ngoroutines")
-		callNames := []string{"get", "list", "wherecache", "where", "transact", "monitor", "monitorcancel", "echo", "disconnect", "connect", "cacherows"}
+		callNames := []string{"get", "list", "liststructs", "wherecache", "where", "transact", "monitor", "monitorcancel", "echo", "disconnect", "connect", "cacherows"}
 		if !reconnect {
 			callNames = append(callNames, "close")
 		}
@@ -732,6 +733,22 @@ func TestC18Concurrent(t *testing.T) {
 				out := newSlicePtr(w.Types["T0"])
 				if c.List(ctx, out) == nil {
 					forEachElem(out, checkRow)
+				}
+			case "liststructs":
+				// List into a slice of structs; the caller owns the result: it writes through the set
+				// of every element (if the result shared memory with the cache, the race detector and
+				// the other readers would notice)
+				out := reflect.New(reflect.SliceOf(w.Types["T0"].Elem())).Interface()
+				if c.List(ctx, out) == nil {
+					sl := reflect.ValueOf(out).Elem()
+					for i := 0; i < sl.Len(); i++ {
+						checkRow(sl.Index(i).Addr().Interface())
+						for f := 0; f < sl.Index(i).NumField(); f++ {
+							if fv := sl.Index(i).Field(f); fv.Kind() == reflect.Slice && fv.CanSet() {
+								scribbleValue(fv)
+							}
+						}
+					}
 				}
 			case "wherecache":
 				out := newSlicePtr(w.Types["T0"])
